@@ -120,12 +120,13 @@ func (c *simConn) SetWriteDeadline(t time.Time) error { return nil }
 // NetFault is one transport / process fault of the plan, addressed by RPC
 // method and occurrence at the receiving node (stable under schedule changes).
 type NetFault struct {
-	Kind   string `json:"kind"`   // refuse | reset-before | reset-after | stall | kill-receiver-before | kill-receiver-after | kill-sender
+	Kind   string `json:"kind"`   // refuse | error-before | reset-before | reset-after | stall | kill-receiver-before | kill-receiver-after | kill-sender
 	Method string `json:"method"` // e.g. RPCSendShard ("" = any)
 	Node   string `json:"node"`   // receiving node address ("" = any)
 	Nth    int    `json:"nth"`    // 1-based occurrence of (Method at Node)
 	Chunk  int    `json:"chunk"`  // RPCSendShard only: chunk index to match (-1 = any)
 	fired  bool
+	anyNode bool // Nth counts occurrences of Method over all nodes
 }
 
 type simNode struct {
@@ -240,8 +241,10 @@ func (n *SimNet) matchFault(sn *simNode, method string, arg any, phase string) *
 	var nth int
 	if phase == "before" {
 		n.seen[short+"@"+sn.addr]++
+		n.seen[short+"@*"]++
 	}
 	nth = n.seen[short+"@"+sn.addr]
+	nthAny := n.seen[short+"@*"]
 	chunk := -1
 	if r, ok := arg.(*cluster.RPCSendShardRequest); ok {
 		chunk = r.ChunkIndex
@@ -258,6 +261,10 @@ func (n *SimNet) matchFault(sn *simNode, method string, arg any, phase string) *
 		}
 		if short == "RPCSendShard" && f.Chunk >= 0 {
 			if f.Chunk != chunk {
+				continue
+			}
+		} else if f.anyNode {
+			if f.Nth != nthAny {
 				continue
 			}
 		} else if f.Nth > 0 && f.Nth != nth {
@@ -303,6 +310,13 @@ func (n *SimNet) serve(sn *simNode, conn *simConn) {
 				case "reset-before":
 					conn.Close()
 					return
+				case "error-before":
+					// a clean refusal of this one request: answered with an error, not executed
+					resp := rpc.Response{ServiceMethod: method, Seq: seq, Error: "injected: shard server cannot serve the request"}
+					wlock.Lock("simnet:write-response")
+					codec.WriteResponse(&resp, struct{}{})
+					wlock.Unlock("simnet:write-response")
+					return
 				case "stall":
 					sim.Sleep(time.Duration(n.stallSec) * time.Second)
 				case "kill-receiver-before":
@@ -339,6 +353,9 @@ func (n *SimNet) serve(sn *simNode, conn *simConn) {
 		})
 	}
 }
+
+// seenTotal: how many requests of a method have been received by all nodes so far. Caller holds n.mu.
+func (n *SimNet) seenTotal(method string) int { return n.seen[method+"@*"] }
 
 func argSource(arg any) string {
 	v := reflect.ValueOf(arg)
